@@ -44,17 +44,20 @@ def run(ctx: Ctx) -> Result:
         n = rng.choice([0, 1, 2, 3, 3, 4, 5]); m = rng.randrange(0, n + 1)
         idx = rng.sample(range(len(keys.pks)), n)
         outsiders = [i for i in range(len(keys.pks)) if i not in idx]
-        allowed = rng.choice([0, 1, 1, 0xff])
+        allowed = rng.choice([0, 1, 1, 0xff, 1 << rng.randrange(8), 0xff ^ (1 << rng.randrange(8)), rng.getrandbits(8), 0x40, 0x80])
+        abits = [1 << k for k in range(8) if allowed >> k & 1]
+        nbits = [1 << k for k in range(8) if not allowed >> k & 1]
+        def sub(): return rng.choice(abits + [allowed & rng.getrandbits(8)]) if abits else 0
         sigs, well = [], True
         for j in range(m):
             c = rng.random()
-            fl = rng.choice([0, 0, allowed & 1, allowed & 1])
+            fl = rng.choice([0, 0, allowed & 1, sub(), sub()])
             signer = idx[j % n] if n else 0
             if c < .15 and sigs: s = sigs[-1]                                        # exact duplicate
             elif c < .3 and n: signer = idx[rng.randrange(n)]; s = None              # maybe same signer again (flag variant)
             elif c < .4 and outsiders: signer = rng.choice(outsiders); s = None     # outsider
             elif c < .45: s = rng.choice([V.rbytes(rng, rng.choice([10, 63, 66])), b'', b'\x00', b'\x01', b'\xff', V.rbytes(rng, 2)]); well = False   # malformed, incl. empty / OP_FALSE-style placeholders
-            elif c < .5: s = None; fl = 2 if not (allowed & 2) else 0x40              # non-permitted flag
+            elif c < .5: s = None; fl = (rng.choice(nbits) | (sub() if rng.random() < .3 else 0)) if nbits else 0      # non-permitted flag (any bit outside the allowance)
             else: s = None
             if s is None:
                 s = keys.sks[signer].sign(ref_msg(cache, fl)).signature + (bytes([fl]) if fl else b'')
